@@ -31,7 +31,7 @@ package validation
 //verif:property C02
 //verif:bound transaction shape: version 1, one BTM spend input (amount 10000000000, source id/position arbitrary), one BTM output of amount-40000000 to a program [OP_1, arbitrary byte], time range arbitrary but not expired (0 or >= block height), serialized size 300, block version 1 at arbitrary height (gas available to the program: 199700)
 //verif:bound P2WPKH: witness of 0..3 items: [junk of 2 bytes]* then signature item, then key item of 31..33 arbitrary bytes (closed world: the committed key, the public key of an arbitrary seed, or 31/33 arbitrary bytes)
-//verif:bound P2WSH: redeem script P2SPMultiSig with (keys, quorum) = (1,1) (2,1) (2,2) quick, (3,2) (3,3) thorough; witness = [optional junk item] [quorum or quorum-1 signature items] [script item]; script item = the committed script, the same keys with another quorum, the script with one key replaced, or (1-of-1 quick, 2-of-2 thorough) arbitrary bytes of the committed script's length
+//verif:bound P2WSH: redeem script P2SPMultiSig with (keys, quorum) = (1,1) (2,1) (2,2) quick, (3,2) (3,3) thorough; witness = [optional junk item] [quorum or quorum-1 signature items] [script item]; script item = the committed script, the same keys with another quorum, the script with one key replaced, or (1-of-1 quick; 2-of-2 and 2-of-3 thorough, open world) arbitrary bytes of the committed script's length
 //verif:assume SHA3-256 and RIPEMD-160 are uninterpreted and collision-free; ed25519.Verify as stated above (world 0: uninterpreted predicate; world 1: override verifC02Verify); ed25519.NewKeyFromSeed/Sign are uninterpreted for the solver with the axiom Verify(pub(seed), msg, Sign(seed||pub(seed), msg))
 //verif:assume error texts are not the subject: vm.Disassemble and hex.EncodeToString (used by vm.wrapErr only on this path) are cut for the solver
 //verif:assume "any change to a committed field of the transaction invalidates the spend" is decided as: the verified message is SHA3(inputID || txID) of this transaction, and a signature over the sibling transaction's signature hash is rejected; that txID/inputID commit to every consensus field is property C03
@@ -45,8 +45,8 @@ package validation
 //verif:obligation fn=VerifC02P2WSH args=1,1,0,4,1;2,1,0,3,1;2,2,0,3,1;2,2,2,1,1 validate=10 secs=3000 timeout=120000
 //verif:obligation fn=VerifC02P2WPKH args=3,0 nooverride=verifC02Verify tier=thorough secs=3000 timeout=120000
 //verif:obligation fn=VerifC02P2WPKH args=3,1 tier=thorough secs=3000 timeout=120000
-//verif:obligation fn=VerifC02P2WSH args=2,2,0,4,0;2,2,1,3,0;3,2,0,3,0;3,3,0,1,0 nooverride=verifC02Verify tier=thorough secs=3000 timeout=120000
-//verif:obligation fn=VerifC02P2WSH args=1,1,1,1,1;2,2,1,3,1;3,2,0,3,1 tier=thorough secs=3000 timeout=120000
+//verif:obligation fn=VerifC02P2WSH args=2,2,0,4,0;2,2,1,3,0;3,2,0,4,0;3,3,0,3,0 nooverride=verifC02Verify tier=thorough secs=3000 timeout=120000
+//verif:obligation fn=VerifC02P2WSH args=1,1,1,1,1;2,2,1,3,1;3,2,0,3,1;3,3,0,3,1 tier=thorough secs=3000 timeout=120000
 
 import (
 	"bytes"
